@@ -1,4 +1,4 @@
-import SSVerif.Model.Protocol
+import SSVerif.Model.ProtocolSys
 import Driver.Util
 /-! driver sub-command `c09`: replays a transcript of API calls (call + the data-dependent part of what
 the implementation returned) on the protocol automaton; prints return class and state summary -/
@@ -11,16 +11,46 @@ def pGram (s : String) : Option Gram :=
   match s with
   | "none" => some .none | "good" => some .good | "bad" => some .bad | _ => none
 
+def pSrc (s : String) : Option LatSrc :=
+  if s = "dec" then some .dec else (parseNat s).map .user
+
+def pInst (s : String) : Option Inst := if s = "a" then some .a else if s = "b" then some .b else none
+
+def pKind (s : String) : Option SubKind :=
+  match s with | "lmath" => some .lmath | "fe" => some .fe | "feat" => some .feat | _ => none
+
+def pKeyType (s : String) : Option KeyType :=
+  match s with
+  | "unknown" => some .unknown | "int" => some .int | "float" => some .float | "bool" => some .bool
+  | "str" => some .str | _ => none
+
+def pStrVal (s : String) : Option StrVal :=
+  match s with
+  | "null" => some .null | "empty" => some .empty | "num" => some .num | "numbool" => some .numBool
+  | "boolword" => some .boolWord | "junk" => some .junk | _ => none
+
+def pOp (ws : List String) : Option CfgOp :=
+  match ws with
+  | ["setstr", v] => (pStrVal v).map .setStr
+  | ["setint"] => some .setInt | ["setfloat"] => some .setFloat | ["setbool"] => some .setBool
+  | ["unset"] => some .unset | ["setnull"] => some .setNull | ["same"] => some .same | ["get"] => some .get
+  | ["typeof"] => some .typeof | ["json"] => some .json
+  | ["parse", e] => (pBool e).map .parse
+  | _ => none
+
+def pTarget (a b : String) : Option CfgTarget :=
+  if a = "dec" then (pInst b).map .dec else if a = "held" then (parseNat b).map .held else none
+
 def parseCall (ws : List String) : Option Call :=
   match ws with
   | ["freenull"] => some .freeNull
-  | ["init", j, g, f] => do some (.init (← pBool j) (← pGram g) (← pBool f))
-  | ["reinit", "keep"] => some (.reinit none)
-  | ["reinit", "new", j, g] => do some (.reinit (some ((← pBool j), (← pGram g))))
+  | ["reinitfeat"] => some .reinitFeat
+  | ["touch"] => some .touch
+  | ["logfile", "null"] => some (.logfile .null)
+  | ["logfile", "file"] => some (.logfile .file)
+  | ["logfile", "bad"] => some (.logfile .bad)
   | ["retain"] => some .retain
   | ["free"] => some .free
-  | ["cfggram", j, g] => do some (.cfgGram (← pBool j) (← pGram g))
-  | ["cfgother", k] => do some (.cfgOther (← pBool k))
   | ["start"] => some .start
   | ["proc", f, a] => do some (.proc (← pBool f) (← pBool a))
   | ["end", a] => do some (.endUtt (← pBool a))
@@ -38,7 +68,15 @@ def parseCall (ws : List String) : Option Call :=
   | ["hypfree", i] => do some (.hypFree (← parseNat i))
   | ["hypseg", d, s, e] => do some (.hypSeg (← parseNat d) (← parseNat s) (← pBool e))
   | ["lattice", e] => do some (.lattice (← pBool e))
-  | ["latbest", e, b] => do some (.latBest (← pBool e) (← pBool b))
+  | ["latbest", src, e, b] => do some (.latBest (← pSrc src) (← pBool e) (← pBool b))
+  | ["latprune", src, e, b] => do some (.latPrune (← pSrc src) (← pBool e) (← pBool b))
+  | ["lattrav", src, e] => do some (.latTrav (← pSrc src) (← pBool e))
+  | ["lnode", i, src, e, ei] => do some (.lnode (← parseNat i) (← pSrc src) (← pBool e) (← pBool ei))
+  | ["lnodenext", i, l] => do some (.lnodeNext (← parseNat i) (← pBool l))
+  | ["lnodefree", i] => do some (.lnodeFree (← parseNat i))
+  | ["llink", d, s, e] => do some (.llink (← parseNat d) (← parseNat s) (← pBool e))
+  | ["llinknext", i, l] => do some (.llinkNext (← parseNat i) (← pBool l))
+  | ["llinkfree", i] => do some (.llinkFree (← parseNat i))
   | ["latretain", k, e] => do some (.latRetain (← parseNat k) (← pBool e))
   | ["latwalk", k] => do some (.latWalk (← parseNat k))
   | ["latfree", k] => do some (.latFree (← parseNat k))
@@ -65,12 +103,17 @@ def b01 (b : Bool) : String := if b then "1" else "0"
 
 def countKind (p : IterKind → Bool) (l : List Iter) : Nat := (l.filter fun it => p it.kind).length
 
-def showState (s : ApiState) : String :=
-  let its := s!" it={countKind isSeg s.iters},{countKind isHyp s.iters},{countKind isAli s.iters} lr={s.lats.length} ar={s.alns.length}"
+def showInst (s : ApiState) : String :=
+  let its := s!" it={countKind isSeg s.iters},{countKind isHyp s.iters},{countKind isAli s.iters} lr={s.lats.length} ar={s.alns.length} ln={countKind isLatN s.iters},{countKind isLatL s.iters}"
   if s.refs = 0 then "D=0" ++ its
   else
     let u := match s.utt with | .idle => "i" | .inUtt => "s" | .ended => "e"
     s!"D={s.refs} u={u} s={b01 (s.search != .none)} a={b01 s.align} j={b01 s.json} g={b01 s.dag}" ++ its
+
+def countSub (k : SubKind) (l : List (SubKind × Nat)) : Nat := (l.filter fun p => p.1 == k).length
+
+def showState (s : Sys) : String :=
+  s!"{showInst s.da} || {showInst s.db} || cf={s.cfgSlots.length} lm={countSub .lmath s.subs} fe={countSub .fe s.subs} ft={countSub .feat s.subs} ml={s.mllrs.length}"
 
 /-- classification printed with every call: `ooo` = listed out-of-order, `oop` = out-of-protocol -/
 def classify (s : ApiState) (c : Call) (r : Ret) : String :=
@@ -80,21 +123,51 @@ def classify (s : ApiState) (c : Call) (r : Ret) : String :=
       | .proc _ _ => s.utt != .inUtt
       | .start => s.utt == .inUtt || s.search == .none
       | .endUtt _ => s.utt != .inUtt || s.search == .none
-      | .hyp _ | .prob | .seg _ _ | .lattice _ | .latBest _ _ | .latRetain _ _ | .nbest _ _ _ => s.search == .none
+      | .hyp _ | .prob | .seg _ _ | .lattice _ | .latRetain _ _ | .nbest _ _ _ => s.search == .none
+      | .latBest .dec _ _ | .latTrav .dec _ | .latPrune .dec _ _ => s.search == .none
       | _ => false
     if ooo then "ooo" else "in"
 
-def stepLine (s : ApiState) (ws : List String) : ApiState × String :=
+def parseSys (ws : List String) : Option SysCall :=
   match ws with
-  | ["reset"] => (init0, "reset")
+  | ["init", i, "new", j, g, f] => do some (.initNew (← pInst i) (← pBool j) (← pGram g) (← pBool f))
+  | ["init", i, "held", k] => do some (.initHeld (← pInst i) (← parseNat k))
+  | ["reinit", i, "keep"] => do some (.reinitKeep (← pInst i))
+  | ["reinit", i, "new", j, g] => do some (.reinitNew (← pInst i) (← pBool j) (← pGram g))
+  | ["reinit", i, "held", k] => do some (.reinitHeld (← pInst i) (← parseNat k))
+  | ["cfggram", a, b, j, g] => do some (.cfgGram (← pTarget a b) (← pBool j) (← pGram g))
+  | "cfgcall" :: a :: b :: kt :: safe :: op => do some (.cfgCall (← pTarget a b) (← pKeyType kt) (← pOp op) (← pBool safe))
+  | ["cfgnew", k, j, g] => do some (.cfgNew (← parseNat k) (← pBool j) (← pGram g))
+  | ["cfgretaindec", i, k] => do some (.cfgRetainDec (← pInst i) (← parseNat k))
+  | ["cfgretainheld", k, j] => do some (.cfgRetainHeld (← parseNat k) (← parseNat j))
+  | ["cfguse", k] => do some (.cfgUse (← parseNat k))
+  | ["cfgfree", k] => do some (.cfgFree (← parseNat k))
+  | ["subretain", i, kd, k] => do some (.subRetain (← pInst i) (← pKind kd) (← parseNat k))
+  | ["subuse", kd, k] => do some (.subUse (← pKind kd) (← parseNat k))
+  | ["subfree", kd, k] => do some (.subFree (← pKind kd) (← parseNat k))
+  | ["mllrread", k, ok] => do some (.mllrRead (← parseNat k) (← pBool ok))
+  | ["mllrapply", i, k, keep] => do some (.mllrApply (← pInst i) (← parseNat k) (← pBool keep))
+  | ["mllrapplynull", i] => do some (.mllrApplyNull (← pInst i))
+  | ["mllrfree", k] => do some (.mllrFree (← parseNat k))
+  | "dec" :: i :: rest => do some (.dec (← pInst i) (← parseCall rest))
+  | _ => none
+
+def stepLine (s : Sys) (ws : List String) : Sys × String :=
+  match ws with
+  | ["reset"] => (sys0, "reset")
   | _ =>
-    match parseCall ws with
+    match parseSys ws with
     | none => (s, "bad-op")
     | some c =>
-      let r := step s c
-      let fresh := match s.search with | .fresh => "f" | .used => "u" | .none => "n"
-      (r.1, s!"{showRet r.2} | {showState r.1} | {classify s c r.2} {fresh}")
+      let r := sysStep s c
+      let cls := match c with
+        | .dec i dc =>
+          let x := s.inst i
+          let fresh := match x.search with | .fresh => "f" | .used => "u" | .none => "n"
+          s!"{classify x dc r.2} {fresh}"
+        | _ => if r.2 == Ret.oop then "oop -" else "in -"
+      (r.1, s!"{showRet r.2} | {showState r.1} | {cls}")
 
-def main : IO Unit := runLoop stepLine init0
+def main : IO Unit := runLoop stepLine sys0
 
 end Driver.C09
